@@ -252,6 +252,15 @@ func (p *AddressPool) Release(duid string) {
 	}
 }
 
+// Decline drops the client's address allocation without returning the address
+// to the available list: the client reported it as already in use on the link.
+func (p *AddressPool) Decline(duid string) {
+	p.mu.Lock()
+	defer p.mu.Unlock()
+
+	delete(p.allocated, duid)
+}
+
 // NewPrefixPool creates a new prefix delegation pool
 func NewPrefixPool(cidr string, delegationLen uint8, preferred, valid uint32) (*PrefixPool, error) {
 	_, ipnet, err := net.ParseCIDR(cidr)
@@ -688,7 +697,27 @@ func (s *Server) handleDecline(msg *Message, addr *net.UDPAddr) {
 		zap.String("from", addr.String()),
 	)
 
-	// For now, just release and let client try again
+	clientIDOpt := msg.GetOption(OptClientID)
+	if clientIDOpt == nil {
+		return
+	}
+	clientDUID := string(clientIDOpt.Data)
+
+	// The binding ends, but unlike a Release the declined address must not be
+	// handed out again: it is taken out of the legacy pool instead of being
+	// returned to it. (The integrated allocator has no quarantine; there the
+	// address is released as before.)
+	if s.addressAllocator == nil && s.addressPool != nil {
+		s.leasesMu.Lock()
+		if lease, ok := s.leases[clientDUID]; ok {
+			lease.Address = nil
+		}
+		s.leasesMu.Unlock()
+		// Also covers an address that was only advertised (no lease yet)
+		s.addressPool.Decline(clientDUID)
+	}
+
+	// Everything else the client holds is released as before
 	s.handleRelease(msg, addr)
 }
 
